@@ -64,6 +64,7 @@ SAFE = [
     r"^core::(tuple|array|slice)::.*<impl std::cmp::(PartialEq|Eq|PartialOrd|Ord)(<.*>)? for .*>::(eq|ne|cmp|partial_cmp|lt|le|gt|ge)$",
     r"^std::cmp::(min|max|Ordering::.*)$",
     r"as std::convert::(From|Into|AsRef|AsMut)(<.*>)?>::(from|into|as_ref|as_mut)$", r"^std::convert::(Into::into|From::from|AsRef::as_ref|AsMut::as_mut|identity)$", r"^<T as std::convert::Into<U>>::into$",
+    r"^std::convert::num::<impl std::convert::From<(bool|char|[iu](8|16|32|64|128|size))> for [iuf](8|16|32|64|128|size)>::from$",   # lossless primitive widenings
     r"^<T as std::borrow::ToOwned>::to_owned$", r"^std::borrow::(Borrow::borrow|BorrowMut::borrow_mut|ToOwned::to_owned)$", r"as std::borrow::(Borrow|BorrowMut)(<.*>)?>::",
     r"^<T as std::string::ToString>::to_string$", r"^std::string::ToString::to_string$",
     r"as std::default::Default>::default$", r"^std::default::Default::default$", r"^std::array::<impl std::default::Default for .*>::default$",
